@@ -205,6 +205,27 @@ def run(chk):
                 and abs(float(again.average_min_distance) - float(fresh.average_min_distance)) <= 1e-12 * max(1.0, abs(float(fresh.average_min_distance)))):
             chk.fail("a k-means object trained a second time (max_iter raised to 50, same explicit start, threshold %g) performs %d iterations and a fresh object %d; centroids / criterion differ"
                      % (thr_r, lc.count, nfresh), {"X": hexlist(Xr), "init": hexlist(initr), "threshold": thr_r, "iterations": [lc.count, nfresh]})
+    # ---- Dask training under an executor that identifies results by task key and keeps them between computations (dask's opportunistic
+    #      cache): two trainings in one session, each equal to the same training run alone (task keys are not reused for other values)
+    from .. import dasksched
+    from ..impl import da
+    for i in range(2 if chk.tier == "quick" else 30):
+        sess = {}
+        outs = []
+        for rep in range(2):
+            initc, Xc = kt.gen_clusters(r, K=2, D=2, N=14)
+            g = gen.nprng(r)
+            initc = Xc[g.choice(len(Xc), size=2, replace=False)]
+            alone, nalone, _ = kt.run_kfit(initc, Xc, (6, 8), cap=6, cthr=1e-4)
+            from ..impl import KMeansMachine as _KM
+            kmc = _KM(n_clusters=2, init_method=np.array(initc), max_iter=6, convergence_threshold=1e-4)
+            dasksched.run_under(3 + i, False, lambda: kmc.fit(da.from_array(Xc, chunks=((6, 8), (2,)))), cache=sess)
+            chk.count(1, key=("key-caching executor", rep))
+            if not (np.allclose(np.asarray(kmc.centroids_), np.asarray(alone.centroids_), rtol=1e-12, atol=1e-12)
+                    and abs(float(kmc.average_min_distance) - float(alone.average_min_distance)) <= 1e-12 * max(1.0, abs(float(alone.average_min_distance)))):
+                chk.fail("k-means training on a Dask array under an executor that keeps results by task key (training %d of the session) differs from the same training alone: criterion %.9g vs %.9g"
+                         % (rep + 1, float(kmc.average_min_distance), float(alone.average_min_distance)),
+                         {"X": hexlist(Xc), "init": hexlist(initc), "chunks": [6, 8], "training_in_session": rep + 1})
     # ---- boundary cases of the stopping rule and of the criterion
     for i in range(6 if chk.tier == "quick" else 60):
         # (a) no more distinct points than clusters, every cluster non-empty: the distortion reaches exactly 0; training must still end by the cap
